@@ -213,6 +213,20 @@ Print Assumptions C14_write_volatile_to_is_C03s.
 Print Assumptions C14_write_all_volatile_to_is_C03s.
 Print Assumptions C14_vec_sink_is_all_writer.
 
+(* PROGRESS of the exact forms (the clause [progress14] of the checker, without the boolean): an exact form that did
+   not succeed and met no hard error (for count > 0 or a start address inside the target) stopped for a CAUSE - the
+   mapped range ended exactly where the transfer stopped, or the request was refused before any call because its range
+   does not lie inside the target, or the last call answered zero bytes (Zero / Short 0 - also what the stream answers
+   after its script) or the reader's source is exhausted.  It never gives up while the stream still delivers. *)
+Theorem C14_exact_gives_up_only_for_cause : forall c s' m' rk a b, wf14 c = true -> is_exact (c_op c) = true ->
+  exec14 c = Val ((s', m'), (rk, a, b)) -> rk <> 1 -> rk <> 5 ->
+  (0 < c_count c \/ idx_of (c_target c) (c_addr c) <> None) ->
+  idx_of (c_target c) (c_addr c + moved_of c s') = None
+  \/ (s' = stream0 c /\ fully_mapped (c_target c) (c_mem c) (c_addr c) (c_count c) = false)
+  \/ ((exists d b, k_done s' = d ++ [b] /\ zeroish b = true) \/ (is_read (c_op c) = true /\ k_src s' = [])).
+Proof. exact exec_why. Qed.
+Print Assumptions C14_exact_gives_up_only_for_cause.
+
 (* ---------------------------------------------------------------------------------------------
    THE CRATE'S OWN ENDPOINTS (suite C14own; Spec/C14own.v, Suite/C14own.v, Proofs/C14own.v).
    The same entry points - VolatileSlice / GuestRegionMmap / GuestMemoryMmap read_volatile_from,
